@@ -425,7 +425,7 @@ class Gen:
     def op_bus(self):
         r, s = self.r, self.s
         lc = s.live_buses(False)
-        k = r.choice(['bus_new'] * 3 + ['bus_free'] * 2 + ['bus_set', 'bus_setn', 'bus_set_at', 'bus_setn_at', 'bus_set_pairs',
+        k = r.choice(['bus_new'] * 3 + ['bus_free'] * 2 + ['bus_sub'] * 2 + ['bus_set', 'bus_setn', 'bus_set_at', 'bus_setn_at', 'bus_set_pairs',
                       'bus_fill', 'bus_clear', 'bus_get', 'bus_getn'])
         if k == 'bus_new' or (not lc and k not in ('bus_free',)):
             audio = r.random() < 0.35
@@ -435,6 +435,22 @@ class Gen:
                 op['index'] = r.choice([0, 0, 3, 64]); self.tags.add('explicit-bus-index')
             self.emit(op)
             s.buses.append({'audio': audio, 'freed': False, 'ch': ch})
+            return
+        if k == 'bus_sub':
+            # a view on part of a bus; offsets and sizes around the end of the parent (in range, exactly at the end, one past, far past)
+            lb = s.live_buses()
+            if not lb:
+                return
+            u = r.choice(lb)
+            pc = s.buses[u]['ch']
+            off = r.choice([0, 0, pc - 1, pc, r.randint(0, pc)])
+            ch = r.choice([1, 1, pc - off, pc - off + 1, pc, pc + 1, r.randint(1, pc + 1)])
+            if ch < 1:
+                ch = 1
+            self.emit({'op': k, 'u': u, 'offset': off, 'channels': ch})
+            ok = not (off > pc or ch + off > pc)
+            s.buses.append({'audio': s.buses[u]['audio'], 'freed': not ok, 'ch': ch if ok else 0, 'dead': not ok})
+            self.tags.add('sub_bus' if ok else 'sub_bus-out-of-range')
             return
         if k == 'bus_free':
             lb = s.live_buses()
